@@ -6,6 +6,7 @@
 import json, os, shutil, subprocess, sys, time
 VERIF = os.path.dirname(os.path.dirname(os.path.abspath(__file__)))
 SEEDED = os.path.join(VERIF, "seeded")
+REPO = os.environ.get("VERIF_REPO", "/repo")
 
 
 def sh(cmd, **kw):
@@ -33,9 +34,9 @@ def do_run(name, checks):
     d = os.path.join(SEEDED, name)
     meta = json.load(open(os.path.join(d, "meta.json")))
     checks = checks or [meta["property"]]
-    if sh("git -C /repo status --porcelain -- include src cmake").stdout.strip():
-        print("refusing: /repo has uncommitted changes"); return 2
-    r = sh("git -C /repo apply %s" % os.path.join(d, "patch.diff"))
+    if sh("git -C %s status --porcelain -- include src cmake" % REPO).stdout.strip():
+        print("refusing: %s has uncommitted changes" % REPO); return 2
+    r = sh("git -C %s apply %s" % (REPO, os.path.join(d, "patch.diff")))
     if r.returncode != 0:
         print("patch does not apply:", r.stderr); return 2
     try:
@@ -56,10 +57,16 @@ def do_run(name, checks):
                         shutil.copy(rp, os.path.join(d, "replay_%s.json" % c))
                     break
     finally:
-        sh("git -C /repo checkout -- .")
+        sh("git -C %s checkout -- ." % REPO)
         # evidence files were rewritten by the runs on the patched tree: restore the committed ones
         sh("git -C %s checkout -- evidence" % VERIF)
     json.dump(meta, open(os.path.join(d, "meta.json"), "w"), indent=1)
+    if os.environ.get("SEED_OUT"):
+        os.makedirs(os.environ["SEED_OUT"], exist_ok=True)
+        json.dump(meta, open(os.path.join(os.environ["SEED_OUT"], name + ".json"), "w"), indent=1)
+        for f in os.listdir(d):
+            if f.startswith("replay_"):
+                shutil.copy(os.path.join(d, f), os.path.join(os.environ["SEED_OUT"], name + "." + f))
     return 0
 
 
